@@ -26,8 +26,14 @@ func DecodeEscape(in *bytes.Buffer, byteMode bool) (out *bytes.Buffer, err error
 	decodeHex := func(what byte, i, size int) error {
 		i++
 		if i+size <= len(runes) {
-			cout, err := strconv.ParseInt(string(runes[i:i+size]), 16, 32)
-			if err != nil {
+			// ParseInt would take a sign too
+			for _, r := range runes[i : i+size] {
+				if !('0' <= r && r <= '9' || 'a' <= r && r <= 'f' || 'A' <= r && r <= 'F') {
+					return py.ExceptionNewf(py.ValueError, "invalid \\%c escape at position %d", what, i-2)
+				}
+			}
+			cout, err := strconv.ParseInt(string(runes[i:i+size]), 16, 64)
+			if err != nil || cout > 0x10FFFF {
 				return py.ExceptionNewf(py.ValueError, "invalid \\%c escape at position %d", what, i-2)
 			}
 			if byteMode {
